@@ -541,6 +541,17 @@ func (fr *FnRun) evalCall(e *Expr, env *Env) Val {
 	case "isnil":
 		need(1)
 		return fr.specEq(env.st, arg(0), nilMarker{})
+	case "entry":
+		// entry(p): the value parameter p had when the function was entered (parameters are mutable in Go)
+		if len(e.Args) != 1 || e.Args[0].Kind != "ident" {
+			panic(abortf("contract: entry(parameter)"))
+		}
+		if fr.env0 != nil {
+			if v, ok := fr.env0[e.Args[0].Name]; ok {
+				return ex.force(env.old, v)
+			}
+		}
+		panic(abortf("contract: entry(%s): no such parameter", e.Args[0].Name))
 	case "allfresh":
 		// allfresh(pkg.Type, ghost): the ghost flag holds for every opaque object of that interface
 		// type that came into existence during this call (e.g. every connection dialed by it)
